@@ -4,7 +4,7 @@
 (* accept or ignore the offered public key, send a challenge of a non-TOKEN type, and interleave       *)
 (* stray packets before each answer.  The Layer-A monitor AuthMon is conjoined to every observable     *)
 (* step; TLC checks AuthOK for the whole product of configurations and two consecutive connect()s.     *)
-EXTENDS AuthMon, Sequences, FiniteSets
+EXTENDS AuthMon, Sequences, FiniteSets, Json
 
 CONSTANTS MaxKeys,     \* rsa_keys has 0..MaxKeys entries
           MaxStray,    \* stray packets the device may put before an answer
@@ -14,19 +14,20 @@ CONSTANTS MaxKeys,     \* rsa_keys has 0..MaxKeys entries
 Token == <<0, 1>>
 BadType == <<0, 7>>
 VARIABLES cfg,        \* configuration of the current connect(): [nkeys, acceptAt, pubAccept, badAt, cb, md, needAuth]
-          hpc, keyi, hostTok, hostArg0, wire, owed, strays, tokN, sigN, a, avail, chunk, ncon, outcome
-vars == <<cfg, hpc, keyi, hostTok, hostArg0, wire, owed, strays, tokN, sigN, a, avail, chunk, ncon, outcome>>
+          hpc, keyi, hostTok, hostArg0, wire, owed, strays, tokN, sigN, a, avail, chunk, ncon, outcome,
+          hist        \* what the device put on the wire, in order ("ans" = its answer, else the stray's command): lets a behaviour be replayed
+vars == <<cfg, hpc, keyi, hostTok, hostArg0, wire, owed, strays, tokN, sigN, a, avail, chunk, ncon, outcome, hist>>
 
 Cfgs == [nkeys : 0..MaxKeys, acceptAt : 0..MaxKeys, pubAccept : BOOLEAN, badAt : 0..(MaxKeys + 1), cb : BOOLEAN, md : MDs, needAuth : BOOLEAN]
 Init == /\ cfg \in Cfgs /\ hpc = "start" /\ keyi = 0 /\ hostTok = 0 /\ hostArg0 = Zero /\ wire = <<>> /\ owed = "none" /\ strays = 0
-        /\ tokN = 0 /\ sigN = 0 /\ a = AuthInit /\ avail = FALSE /\ chunk = 2048 /\ ncon = 1 /\ outcome = "none"
+        /\ tokN = 0 /\ sigN = 0 /\ a = AuthInit /\ avail = FALSE /\ chunk = 2048 /\ ncon = 1 /\ outcome = "none" /\ hist = <<>>
 
 Pkt(c, a0, tok, md) == [cmd |-> c, a0 |-> a0, a1 |-> md, tok |-> tok]
 
 (* ---- host *)
 Start == /\ hpc = "start"
          /\ a' = AuthTx(AuthCall(a, [nkeys |-> cfg.nkeys, cb |-> cfg.cb, auth_timeout |-> 7]), [kind |-> "CNXN", fields |-> TRUE])
-         /\ avail' = FALSE /\ wire' = <<>> /\ owed' = "cnxn" /\ strays' = 0 /\ tokN' = 0 /\ sigN' = 0 /\ keyi' = 0 /\ hpc' = "wait1" /\ outcome' = "none"
+         /\ avail' = FALSE /\ wire' = <<>> /\ owed' = "cnxn" /\ strays' = 0 /\ tokN' = 0 /\ sigN' = 0 /\ keyi' = 0 /\ hpc' = "wait1" /\ outcome' = "none" /\ hist' = <<>>
          /\ UNCHANGED <<cfg, hostTok, hostArg0, chunk, ncon>>
 Expected == IF hpc = "wait3" THEN {"CNXN"} ELSE {"AUTH", "CNXN"}
 Raise(cls) == /\ a' = AuthExc(a, [cls |-> cls, avail |-> FALSE]) /\ avail' = FALSE /\ hpc' = "done" /\ outcome' = cls
@@ -49,20 +50,20 @@ HostRead == /\ hpc \in {"wait1", "wait2", "wait3"} /\ wire # <<>>
                /\ IF p.cmd \notin Expected THEN a' = AuthRd(a, p) /\ UNCHANGED <<hpc, keyi, hostTok, hostArg0, owed, strays, avail, chunk, outcome>>
                   ELSE IF p.cmd = "CNXN" THEN Succeed(p.a1) /\ UNCHANGED <<keyi, hostTok, hostArg0, owed, strays>>
                   ELSE /\ hostTok' = p.tok /\ hostArg0' = p.a0 /\ AfterChallenge(AuthRd(a, p), p.a0, p.tok)
-            /\ UNCHANGED <<cfg, tokN, sigN, ncon>>
+            /\ UNCHANGED <<cfg, tokN, sigN, ncon, hist>>
 \* nothing will ever arrive: the read loop ends in a timeout error
 HostTimeout == /\ hpc \in {"wait1", "wait2", "wait3"} /\ wire = <<>> /\ owed = "none" /\ Raise("AdbTimeoutError")
-               /\ UNCHANGED <<cfg, keyi, hostTok, hostArg0, wire, owed, strays, tokN, sigN, chunk, ncon>>
+               /\ UNCHANGED <<cfg, keyi, hostTok, hostArg0, wire, owed, strays, tokN, sigN, chunk, ncon, hist>>
 Again == /\ hpc = "done" /\ ncon < Connects /\ ncon' = ncon + 1 /\ hpc' = "start" /\ cfg' \in Cfgs
-         /\ UNCHANGED <<keyi, hostTok, hostArg0, wire, owed, strays, tokN, sigN, a, avail, chunk, outcome>>
+         /\ UNCHANGED <<keyi, hostTok, hostArg0, wire, owed, strays, tokN, sigN, a, avail, chunk, outcome, hist>>
 
 (* ---- device *)
 Stray == /\ owed # "none" /\ strays < MaxStray /\ strays' = strays + 1
-         /\ \E c \in {"OKAY", "WRTE", "CLSE"} : wire' = Append(wire, Pkt(c, Zero, 0, Zero))
+         /\ \E c \in {"OKAY", "WRTE", "CLSE"} : wire' = Append(wire, Pkt(c, Zero, 0, Zero)) /\ hist' = Append(hist, c)
          /\ UNCHANGED <<cfg, hpc, keyi, hostTok, hostArg0, owed, tokN, sigN, a, avail, chunk, ncon, outcome>>
 Challenge == /\ tokN' = tokN + 1
              /\ wire' = Append(wire, Pkt("AUTH", IF cfg.badAt = tokN + 1 THEN BadType ELSE Token, tokN + 1, Zero))
-Answer == /\ owed # "none" /\ owed' = "none"
+Answer == /\ owed # "none" /\ owed' = "none" /\ hist' = Append(hist, "ans")
           /\ CASE owed = "cnxn" -> IF cfg.needAuth THEN Challenge /\ UNCHANGED sigN ELSE wire' = Append(wire, Pkt("CNXN", Zero, 0, cfg.md)) /\ UNCHANGED <<tokN, sigN>>
                [] owed = "sig" -> /\ sigN' = sigN + 1
                                   /\ IF cfg.acceptAt = sigN + 1 THEN wire' = Append(wire, Pkt("CNXN", Zero, 0, cfg.md)) /\ UNCHANGED tokN ELSE Challenge
@@ -73,6 +74,10 @@ Finished == hpc = "done" /\ ncon = Connects /\ UNCHANGED vars
 Next == Start \/ HostRead \/ HostTimeout \/ Again \/ Stray \/ Answer \/ Finished
 Spec == Init /\ [][Next]_vars
 
+\* one JSON row per completed single connect(): configuration, what the device put on the wire, what the host did (replayed on the real code)
+EndRow == (hpc = "done" /\ ncon = 1) => PrintT(<<"END", ToJson([cfg |-> cfg, hist |-> hist, outcome |-> outcome, sigs |-> a.sigs, pub |-> a.pub, cb |-> a.cb, avail |-> avail, chunk |-> chunk])>>)
+\* the history variable multiplies states without adding behaviour: the exhaustive configurations hide it
+ViewNoHist == <<cfg, hpc, keyi, hostTok, hostArg0, wire, owed, strays, tokN, sigN, a, avail, chunk, ncon, outcome>>
 AuthOK == a.verdict = "ok"
 AvailIffOk == (hpc = "done") => (avail = (outcome = "ok"))
 \* connect succeeds exactly when the device's last word is CNXN
